@@ -33,6 +33,14 @@ def gen_world(seed, wi):
     rng = random.Random(f"C17:{seed}:w:{wi}")
     ng = rng.choice([1, 1, 2])
     gopts = [WL.gene_opts(rng, small=True) for _ in range(ng)]
+    exome = wi % 4 == 3
+    if exome:
+        # a database the shipped "illumina" profile knows by name and region names (3 exons, no
+        # pseudogene), with a whole-gene deletion allele so that copy-number calling exists: the
+        # exome / wxs / wes route works on it (copy-number calling switched off, two copies assumed)
+        ng = 1
+        gopts = [dict(WL.gene_opts(rng, small=True), name="NUDT15", n_exons=3, pseudo=False, deletion=True,
+                      lfusion=False, rfusion=False, cn_subset=False)]
     gopts.append(dict(strand=rng.choice("+-"), gene_len=420, n_exons=2, n_variants=3, n_major=1,
                       pseudo=False, deletion=True))
     ro = WL.read_opts(rng)
@@ -47,7 +55,16 @@ def gen_world(seed, wi):
         # the declared neutral region is wider than what the reads cover (positions with zero depth)
         c0, c1 = world["neutral"]
         world["neutral_zone"] = [c0 + rng.randint(5, 40), c1 - rng.randint(5, 40)]
-    return {"world": world, "samples": {"s0": smp}, "build": rng.choice(["hg19", "hg19", "hg38"]), "ngenes": ng}
+    if exome:
+        # a structure other than two plain copies: the exome route must not notice, and neither may the replay
+        g0 = world["genes"][0]
+        normal = [a["name"] for a in g0["alleles"] if a["kind"] == "normal"]
+        units = [u for u in smp["genes"][g0["name"]] if u["type"] == "normal"][:2]
+        while len(units) < 2:
+            units.append({"type": "normal", "allele": rng.choice(normal)})
+        smp["genes"][g0["name"]] = units + [{"type": "extra", "allele": rng.choice(normal)}]
+    return {"world": world, "samples": {"s0": smp}, "build": rng.choice(["hg19", "hg19", "hg38"]), "ngenes": ng,
+            "exome": exome}
 
 
 def gen_plan(rng, tier, i, seed):
@@ -73,11 +90,20 @@ def gen_plan(rng, tier, i, seed):
     cn = None
     if rng.random() < 0.15:
         cn = "1,1"
+    profile_name = None
+    if w.get("exome"):
+        profile_name = rng.choice(["exome", "wxs", "wes", None])
+        if profile_name:
+            cn = None
+            if fault == "failing_gene":
+                fault = "none"
+                genes = list(names)
     return {
         "w": w,
         "genes": genes,
         "params": params,
         "cn": cn,
+        "profile_name": profile_name,
         "out": rng.choice(["aldy", "aldy", "vcf", "simple"]),
         "fault": fault,
         "fault_at": rng.randint(1, 14),
@@ -106,7 +132,7 @@ def execute(plan, runner, rundir):
     w = plan["w"]
     wd, (worlddir, man) = _materialise(runner, w)
     common = {"worlddir": worlddir, "man": man, "rundir": rundir, "build": w["build"], "genes": plan["genes"],
-              "params": plan["params"], "cn": plan["cn"], "out": plan["out"]}
+              "params": plan["params"], "cn": plan["cn"], "out": plan["out"], "profile_name": plan.get("profile_name")}
 
     def direct():
         rd = runner.new_dir("direct")
@@ -117,7 +143,8 @@ def execute(plan, runner, rundir):
 
             shutil.rmtree(rd, ignore_errors=True)
 
-    ref = runner.memoised(("direct", wd, canon.digest([plan["genes"], plan["params"], plan["cn"], plan["out"]])),
+    ref = runner.memoised(("direct", wd, canon.digest([plan["genes"], plan["params"], plan["cn"], plan["out"],
+                                                       plan.get("profile_name")])),
                           direct)
     sim = {}
     if plan["fault"] == "solver":
@@ -325,9 +352,14 @@ def _argv(seg, source, debug=None, outp=None, genes=None, with_profile=True):
     wd, man = seg["worlddir"], seg["man"]
     genes = genes or seg["genes"]
     argv = ["genotype", source, "--gene", ",".join(os.path.join(wd, man["db"][g]) for g in genes)]
-    if with_profile:
+    if seg.get("profile_name"):
+        # technology profile by name (exome family): given on every invocation, also when replaying
+        argv += ["--profile", seg["profile_name"]]
+        if with_profile:
+            argv += ["-n", man["neutral"]]
+    elif with_profile:
         argv += ["--profile", os.path.join(wd, man["ref_bam"]), "-n", man["neutral"]]
-    if seg["build"] != "hg19" and with_profile:
+    if seg["build"] != "hg19" and (with_profile or seg.get("profile_name")):
         argv += ["--genome", seg["build"]]
     if seg["cn"]:
         argv += ["--cn", seg["cn"]]
